@@ -14,6 +14,8 @@
 //!        | {"op":"globals","kind":"standard"|"extended"|"harness","adopt":bool}   build a Globals, observe its names
 //! `"recheck":true` (with `seq_first`): the workloads are run alone a second time after the concurrent phase and must
 //! reproduce the first sequential transcripts (`rediff`).  `"kind":"churn"` rounds: see `run_churn`.
+//! `"fresh_libs":true` rounds (`run_fresh_round`): the alone transcript of each workload is taken on a FRESH copy of the libraries,
+//! and the concurrent phase runs `repeat` times on further fresh copies (thread `"group"`s started together / staggered).
 //! (`"inject":"double-drop"` is a self-test knob: every worker drops its clone of the first library once too often.)
 //! result = {"id","threads","ops","equal":bool,"diff":{..}|null,"xdrops":n,"xfail":[..],"events":[..],"panic"?}
 //!
@@ -450,6 +452,7 @@ fn worker(
     seed: u64,
     jitter_us: u64,
     inject_double_drop: bool,
+    delay_us: u64,
 ) -> ThreadOut {
     let mut rng = Rng(seed | 1);
     if let Some(b) = &barrier {
@@ -459,6 +462,10 @@ fn worker(
         let t0 = Instant::now();
         while t0.elapsed() < Duration::from_micros(us) {
             std::hint::spin_loop();
+        }
+        // staggered start (fresh-library rounds): this thread's group starts after the other group
+        if delay_us > 0 {
+            std::thread::sleep(Duration::from_micros(delay_us));
         }
     }
     let globals = match globals {
@@ -571,7 +578,7 @@ fn run_round(case: &J) -> J {
             let (ops, l, g) = (ops_of(i), libs.clone(), globals.clone());
             let h = std::thread::Builder::new()
                 .stack_size(stack)
-                .spawn(move || worker(i + 1, false, ops, l, g, Vec::new(), None, None, seed, 0, false))
+                .spawn(move || worker(i + 1, false, ops, l, g, Vec::new(), None, None, seed, 0, false, 0))
                 .map_err(|e| format!("spawn: {}", e))?;
             outs.push(h.join().map_err(|e| format!("sequential workload {} panicked: {}", i, panic_msg(&*e)))?);
         }
@@ -606,7 +613,7 @@ fn run_round(case: &J) -> J {
         let s = seed.wrapping_mul(6364136223846793005).wrapping_add(i as u64 + 1);
         let h = std::thread::Builder::new()
             .stack_size(stack)
-            .spawn(move || worker(i + 1, true, ops, l, g, peers, rx, Some(b), s, jitter_us, inject));
+            .spawn(move || worker(i + 1, true, ops, l, g, peers, rx, Some(b), s, jitter_us, inject, 0));
         match h {
             Ok(h) => handles.push(h),
             Err(e) => return json!({"id": case["id"], "setup_error": format!("spawn: {}", e)}),
@@ -703,6 +710,197 @@ fn run_round(case: &J) -> J {
     json!({"id": case["id"], "threads": n, "ops": nops, "items": items, "equal": diff.is_null(), "diff": diff,
            "xdrops": xdrops, "xfail": xfail, "events": evs, "op_errors": errs, "ms": t_start.elapsed().as_millis() as u64,
            "rediff": rediff, "dump": dump})
+}
+
+/// First difference between two lists of per-op transcripts.
+fn first_diff(a: &[Vec<String>], b: &[Vec<String>]) -> Option<(usize, usize)> {
+    for (k, (x, y)) in a.iter().zip(b.iter()).enumerate() {
+        if x != y {
+            let j = x.iter().zip(y.iter()).position(|(p, q)| p != q).unwrap_or(x.len().min(y.len()));
+            return Some((k, j));
+        }
+    }
+    if a.len() != b.len() { Some((a.len().min(b.len()), 0)) } else { None }
+}
+
+// ---------------------------------------------------------------------------------------------------------------
+// fresh-library rounds (`"fresh_libs":true`): state that is written into a FROZEN shared value after freeze, on first
+// use (a lazily computed name / type / cache), is invisible when every run uses the same library object - the first
+// run fills it for all later ones.  Here the reference transcript of each workload is taken ALONE on a FRESH copy of
+// the libraries (built from source for that workload only), and the concurrent phase is repeated `repeat` times, each
+// time on another fresh copy shared by all threads.  Threads carry a `"group"` (0 / 1); repetition r runs in mode
+// r % 3: 0 = all threads race from the barrier, 1 = group 0 first (group 1 starts `stagger_us` later), 2 = group 1
+// first.  Every thread's transcript in every repetition must equal its alone transcript.  With `recheck` the alone
+// runs are repeated (fresh copies again) after the concurrent phase.  `events` is the history of repetition 0.
+fn run_fresh_round(case: &J) -> J {
+    let t_start = Instant::now();
+    let seed = case["seed"].as_u64().unwrap_or(1);
+    let jitter_us = case["jitter_us"].as_u64().unwrap_or(50);
+    let stagger_us = case["stagger_us"].as_u64().unwrap_or(2000);
+    let repeat = case["repeat"].as_u64().unwrap_or(3).max(1) as usize;
+    let stack = (case["stack_mb"].as_u64().unwrap_or(16) as usize) << 20;
+    let threads_j = case["threads"].as_array().cloned().unwrap_or_default();
+    let n = threads_j.len();
+    let seq_first = case["seq_first"].as_bool().unwrap_or(false);
+    let groups: Vec<u64> = threads_j.iter().map(|t| t["group"].as_u64().unwrap_or(0)).collect();
+    let ops_of = |i: usize| -> Vec<J> { threads_j[i]["ops"].as_array().cloned().unwrap_or_default() };
+
+    // each workload alone, on its own fresh copy of the libraries, on a fresh thread
+    let run_alone = || -> Result<Vec<ThreadOut>, J> {
+        let mut outs = Vec::new();
+        for i in 0..n {
+            let mut scratch = Vec::new();
+            let (libs, globals) =
+                build_libs(case, &mut scratch).map_err(|e| json!({"id": case["id"], "setup_error": e}))?;
+            let ops = ops_of(i);
+            let h = std::thread::Builder::new()
+                .stack_size(stack)
+                .spawn(move || worker(i + 1, false, ops, libs, globals, Vec::new(), None, None, seed, 0, false, 0))
+                .map_err(|e| json!({"id": case["id"], "setup_error": format!("spawn: {}", e)}))?;
+            outs.push(h.join().map_err(|e| {
+                json!({"id": case["id"], "panic": format!("workload {} alone panicked: {}", i, panic_msg(&*e)), "phase": "sequential"})
+            })?);
+        }
+        Ok(outs)
+    };
+
+    let mut seq_out: Option<Vec<ThreadOut>> = None;
+    if seq_first {
+        match run_alone() {
+            Ok(o) => seq_out = Some(o),
+            Err(j) => return j,
+        }
+    }
+    let mut reps: Vec<(u64, Vec<ThreadOut>)> = Vec::new();
+    let mut events: Vec<(u64, String)> = Vec::new();
+    for rep in 0..repeat {
+        let mode = match case["modes"].as_array() {
+            Some(m) if !m.is_empty() => m[rep % m.len()].as_u64().unwrap_or(0),
+            _ => (rep % 3) as u64,
+        };
+        let mut evs: Vec<(u64, String)> = Vec::new();
+        let (libs, globals) = match build_libs(case, &mut evs) {
+            Ok(x) => x,
+            Err(e) => return json!({"id": case["id"], "setup_error": e}),
+        };
+        let barrier = Arc::new(Barrier::new(n));
+        let mut txs: Vec<Sender<Item>> = Vec::new();
+        let mut rxs: Vec<Option<Receiver<Item>>> = Vec::new();
+        for _ in 0..n {
+            let (tx, rx) = channel::<Item>();
+            txs.push(tx);
+            rxs.push(Some(rx));
+        }
+        let mut handles = Vec::new();
+        for i in 0..n {
+            let l = libs.clone();
+            for (_, h) in &l {
+                evs.push((tick(), format!("C 0 {} {}", h.id.0, h.id.1)));
+                evs.push((tick(), format!("Sd 0 {} {}", h.id.0, h.id.1)));
+            }
+            let (ops, g, peers, rx, b) = (ops_of(i), globals.clone(), txs.clone(), rxs[i].take(), barrier.clone());
+            let s = seed.wrapping_mul(6364136223846793005).wrapping_add((i + 1 + 1000 * rep) as u64);
+            let delay = match (mode, groups[i]) {
+                (1, g) if g != 0 => stagger_us,
+                (2, 0) => stagger_us,
+                _ => 0,
+            };
+            let h = std::thread::Builder::new()
+                .stack_size(stack)
+                .spawn(move || worker(i + 1, true, ops, l, g, peers, rx, Some(b), s, jitter_us, false, delay));
+            match h {
+                Ok(h) => handles.push(h),
+                Err(e) => return json!({"id": case["id"], "setup_error": format!("spawn: {}", e)}),
+            }
+        }
+        drop(txs);
+        let mut outs = Vec::new();
+        let mut panics = Vec::new();
+        for (i, h) in handles.into_iter().enumerate() {
+            match h.join() {
+                Ok(o) => outs.push(o),
+                Err(e) => panics.push(format!("thread {}: {}", i, panic_msg(&*e))),
+            }
+        }
+        if !panics.is_empty() {
+            return json!({"id": case["id"], "panic": panics.join(" | "), "phase": "concurrent", "threads": n, "rep": rep});
+        }
+        for (_, h) in libs.iter().rev() {
+            evs.push((tick(), format!("D 0 {} {}", h.id.0, h.id.1)));
+        }
+        drop(libs);
+        if rep == 0 {
+            for o in &outs {
+                evs.extend(o.events.iter().cloned());
+            }
+            events = evs;
+        }
+        reps.push((mode, outs));
+    }
+    if seq_out.is_none() {
+        match run_alone() {
+            Ok(o) => seq_out = Some(o),
+            Err(j) => return j,
+        }
+    }
+    let seq_out = seq_out.unwrap();
+    let mut rediff = J::Null;
+    if case["recheck"].as_bool().unwrap_or(false) {
+        match run_alone() {
+            Ok(again) => {
+                for (i, (a, b)) in again.iter().zip(seq_out.iter()).enumerate() {
+                    if let Some((k, j)) = first_diff(&a.transcripts, &b.transcripts) {
+                        rediff = json!({"thread": i, "op": k, "item": j,
+                                        "after": a.transcripts.get(k).and_then(|t| t.get(j)).map(|s| trunc(s)),
+                                        "before": b.transcripts.get(k).and_then(|t| t.get(j)).map(|s| trunc(s))});
+                        break;
+                    }
+                }
+            }
+            Err(j) => return j,
+        }
+    }
+    let mut diff = J::Null;
+    let mut ndiff = 0usize;
+    let mut nops = 0usize;
+    let mut items = 0usize;
+    let mut xdrops = 0usize;
+    let mut xfail: Vec<String> = Vec::new();
+    let mut errs = 0usize;
+    for (rep, (mode, outs)) in reps.iter().enumerate() {
+        for (i, c) in outs.iter().enumerate() {
+            let s = &seq_out[i];
+            xdrops += c.xdrops;
+            xfail.extend(c.xfail.iter().cloned());
+            nops += c.transcripts.len();
+            items += c.transcripts.iter().map(|t| t.len()).sum::<usize>();
+            errs += c.transcripts.iter().filter(|t| t.last().map(|x| x.starts_with("ERR@")).unwrap_or(false)).count();
+            if let Some((k, j)) = first_diff(&c.transcripts, &s.transcripts) {
+                ndiff += 1;
+                if diff.is_null() {
+                    let (a, b) = (c.transcripts.get(k), s.transcripts.get(k));
+                    diff = json!({"thread": i, "op": k, "item": j, "rep": rep, "mode": mode, "group": groups[i],
+                                  "concurrent": a.and_then(|t| t.get(j)).map(|x| trunc(x)),
+                                  "sequential": b.and_then(|t| t.get(j)).map(|x| trunc(x)),
+                                  "len_concurrent": a.map(|t| t.len()), "len_sequential": b.map(|t| t.len())});
+                }
+            }
+        }
+    }
+    for s in &seq_out {
+        xfail.extend(s.xfail.iter().map(|x| format!("(sequential) {}", x)));
+    }
+    events.sort();
+    let evs: Vec<&str> = events.iter().map(|(_, s)| s.as_str()).collect();
+    let dump = if case["dump"].as_bool().unwrap_or(false) {
+        json!({"alone": seq_out.iter().map(|c| c.transcripts.clone()).collect::<Vec<_>>(),
+               "concurrent": reps.iter().map(|(_, o)| o.iter().map(|c| c.transcripts.clone()).collect::<Vec<_>>()).collect::<Vec<_>>()})
+    } else {
+        J::Null
+    };
+    json!({"id": case["id"], "threads": n, "ops": nops, "items": items, "equal": diff.is_null(), "diff": diff,
+           "threads_differing": ndiff, "reps": repeat, "xdrops": xdrops, "xfail": xfail, "events": evs, "op_errors": errs,
+           "ms": t_start.elapsed().as_millis() as u64, "rediff": rediff, "dump": dump})
 }
 
 // ---------------------------------------------------------------------------------------------------------------
@@ -1083,7 +1281,13 @@ fn main() {
             std::thread::spawn(move || watchdog(limit, r, my_round));
         }
         let churn = case["kind"].as_str() == Some("churn");
-        let r = match catch_unwind(AssertUnwindSafe(|| if churn { run_churn(&case) } else { run_round(&case) })) {
+        let r = match catch_unwind(AssertUnwindSafe(|| if churn {
+            run_churn(&case)
+        } else if case["fresh_libs"].as_bool().unwrap_or(false) {
+            run_fresh_round(&case)
+        } else {
+            run_round(&case)
+        })) {
             Ok(v) => v,
             Err(e) => json!({"id": case["id"], "panic": panic_msg(&*e), "phase": "main"}),
         };
